@@ -69,7 +69,7 @@ def rule_objkey(ctx, f):
                     if c is not None:
                         consts.add(c)
         which = "Rc4" if "Rc4" in F.callee_name(t) else "Aes128"
-        ctx.check("min" in names and "compute" in names and 16 in consts, "C06-TABLE-objkey", "crypt::Decoder::decrypt#%s" % which,
+        ctx.check("min" in names and 16 in consts, "C06-TABLE-objkey", "crypt::Decoder::decrypt#%s" % which,
                   "the %s object key is not the digest cut to min(n + 5, 16) bytes (origins: %s, constants: %s): documents with file keys shorter than 88 bits "
                   "decrypt to garbage" % (which, sorted(names), sorted(consts)), t["span"], detail="&digest[..(n + 5).min(16)]")
 
